@@ -957,15 +957,16 @@ for rel, tys in (("pipe.rs", ["Pipe"]), ("unit_pipe.rs", ["UnitPipe"])):
 # Everything in the windowed filters except Median::default is safe Rust, where "every owned value is dropped exactly
 # once, never read after a drop or before initialisation" is rustc's ownership discipline - unless the code leaks
 # deliberately (mem::forget, ManuallyDrop, Box::leak) or uses unsafe operations.  The obligation pins the unsafe surface of
-# each file (comments and the test module stripped) to what was audited: `unsafe fn state_mut` (a plain reference), the
-# median's `unsafe fn` helpers and their `unsafe { self.helper() }` call sites (no unsafe OPERATION inside: their bodies are
-# translated, section 4.2b), and the one MaybeUninit initialisation loop of Median::default (modelled: Ledger.uninit_write,
+# each file (comments and the test module stripped) to what was audited.  `unsafe fn` declarations and `unsafe { self.f(..) }`
+# blocks that merely call one of the receiver's own methods carry no unsafe OPERATION themselves (the bodies they lead to are
+# translated, section 4.2b, and fall under the token counts below), so any number of them is allowed; every other unsafe block
+# is counted: two, both in the one MaybeUninit initialisation of Median::default (modelled: Ledger.uninit_write,
 # theorem C19_uninit_loop_initialises, node formula translated).  Any new unsafe / raw-pointer / forget-like token breaks it.
-UNSAFE_TOK = {"unsafe": r"\bunsafe\b", "MaybeUninit": r"MaybeUninit", "assume_init": r"assume_init",
+UNSAFE_TOK = {"unsafe block that is not a plain call of one of the receiver's own methods": "@NONTRIVIAL_UNSAFE", "MaybeUninit": r"MaybeUninit", "assume_init": r"assume_init",
               "raw pointer operation": r"\.read\(\)|\.write\(|ptr::|as_ptr|as_mut_ptr|NonNull|\*const|\*mut",
               "forget / leak / unchecked": r"\bforget\b|ManuallyDrop|\bleak\b|transmute|from_raw|into_raw|drop_in_place|set_len|get_unchecked|zeroed|\bunion\b"}
-UNSAFE_EXPECT = {"median.rs": (21, 4, 1, 4, 0), "mean/mean.rs": (1, 0, 0, 0, 0), "bounds/max.rs": (1, 0, 0, 0, 0), "bounds/min.rs": (1, 0, 0, 0, 0), "bounds.rs": (1, 0, 0, 0, 0),
-                 "convolve.rs": (1, 0, 0, 0, 0), "delay.rs": (1, 0, 0, 0, 0)}
+UNSAFE_EXPECT = {"median.rs": (2, 4, 1, 4, 0), "mean/mean.rs": (0, 0, 0, 0, 0), "bounds/max.rs": (0, 0, 0, 0, 0), "bounds/min.rs": (0, 0, 0, 0, 0), "bounds.rs": (0, 0, 0, 0, 0),
+                 "convolve.rs": (0, 0, 0, 0, 0), "delay.rs": (0, 0, 0, 0, 0)}
 for rel_, exp_ in UNSAFE_EXPECT.items():
     ASSERTS.setdefault("C19", []).append(dict(name="unsafe_surface_" + rel_.replace("/", "_").replace(".rs", ""), file=F + rel_, strip=True,
                                                counts={rx_: n_ for (k_, rx_), n_ in zip(UNSAFE_TOK.items(), exp_)},
@@ -1067,7 +1068,26 @@ def run_case(ent, case, body_ast, params_txt, assume=None):
             h = find_helper(hname)
             if h is not None: found = found + deep(h[0], [])
         if kth >= len(found): raise Unsupported("the body has only %d `%s` loops" % (len(found), kind))
-        body_ast = found[kth][3] if (ent.get("unwrap_for") and kind == "for") else ("block", [("expr", found[kth])], None)
+        def contains(node, target):
+            if node is target: return True
+            if isinstance(node, (tuple, list)): return any(contains(x_, target) for x_ in node)
+            return False
+        def find_block(node, target, acc):
+            """the pure `let` statements of every block that encloses the selected loop, up to the statement that contains it"""
+            if node is target: return acc
+            if isinstance(node, tuple) and node and node[0] == "block":
+                items = list(node[1]) + ([("expr", node[2])] if node[2] is not None else [])
+                for i_, st_ in enumerate(items):
+                    if contains(st_, target):
+                        return find_block(st_, target, acc + [x_ for x_ in items[:i_] if x_[0] == "let" and not _R.effectful(x_[2])])
+                return None
+            if isinstance(node, (tuple, list)):
+                for x_ in node:
+                    if contains(x_, target): return find_block(x_, target, acc)
+            return None
+        pre = find_block(body_ast, found[kth], []) or []
+        pre = [x_ for x_ in pre if not (x_[1][0] == "pid" and x_[1][1] in (ent.get("locals") or {}) or x_[1][0] == "pid" and x_[1][1] in (case.get("locals") or {}))]
+        body_ast = found[kth][3] if (ent.get("unwrap_for") and kind == "for") else ("block", pre + [("expr", found[kth])], None)
     if assume is not None: sym.assume = list(assume)
     sym.curbuf = ent.get("curbuf")
     if ent.get("select") == "for_body":
@@ -1251,7 +1271,9 @@ def regenerate(pid, ROOT, BUILD):
                 from rs2coq import strip_comments as _sc
                 txt = _sc(txt).split("#[cfg(test)]")[0]
             ok_ = all(re.search(rx, txt) for rx in a.get("must", [])) and not any(re.search(rx, txt) for rx in a.get("mustnot", [])) \
-                  and all(len(re.findall(rx, txt)) == n_ for rx, n_ in (a.get("counts") or {}).items())
+                  and all((len(re.findall(rx, txt)) if rx != "@NONTRIVIAL_UNSAFE" else
+                           len(re.findall(r"\bunsafe\s*\{", txt)) - len(re.findall(r"\bunsafe\s*\{\s*self\s*\.\s*[A-Za-z_][A-Za-z0-9_]*\s*\([^(){}]*\)\s*;?\s*\}", txt))) == n_
+                          for rx, n_ in (a.get("counts") or {}).items())
         except OSError:
             ok_ = False
         if ok_: info["discharged"] += 1
